@@ -103,9 +103,17 @@ impl Effect for Compressor {
 				*envelope_follower =
 					over_decibels[i] + speed as f32 * (*envelope_follower - over_decibels[i]);
 			}
+			// a ratio of 0 has no reciprocal (1.0 / 0.0 is infinite, and an envelope
+			// of 0.0 times infinity is NaN): it leaves the dynamics unchanged, like
+			// a ratio of 1
+			let slope = if ratio == 0.0 {
+				0.0
+			} else {
+				(1.0 / ratio) - 1.0
+			};
 			let gain_reduction = self
 				.envelope_follower
-				.map(|envelope_follower| envelope_follower * ((1.0 / ratio) - 1.0));
+				.map(|envelope_follower| envelope_follower * slope);
 			let amplitude =
 				gain_reduction.map(|gain_reduction| 10.0f32.powf(gain_reduction / 20.0));
 			let makeup_gain_linear = 10.0f32.powf(makeup_gain.0 / 20.0);
